@@ -75,6 +75,26 @@ def add_heat_consumer_bridge(rng, spec):
     return spec
 
 
+def add_machines(rng, spec):
+    """2-3 pumps (water) / compressors (gas) with DIFFERENT std types / ratios, each the only feeder of its own leaf
+    junction with a sink; the first one in the table is switched off or hangs on a junction that is cut off"""
+    js = _junction_labels(spec)
+    tj = _template_junction(spec)
+    water = spec["fluid"] == "water"
+    fn, par = ("create_pump", "std_type") if water else ("create_compressor", "pressure_ratio")
+    vals = rng.sample(["P1", "P2", "P3"], 3) if water else rng.sample([1.05, 1.1, 1.2, 1.3], 3)
+    scale = 0.3 if water else 0.01
+    a = js[0]
+    for k in range(rng.randint(2, 3)):
+        c = max(_junction_labels(spec)) + 1
+        spec["ops"].append(["create_junction", {"index": c, "pn_bar": tj["pn_bar"], "tfluid_k": tj["tfluid_k"]}])
+        spec["ops"].append([fn, {"index": _new_label(spec, fn), "from_junction": a, "to_junction": c, par: vals[k],
+                                 "in_service": not (k == 0 and rng.random() < 0.7)}])
+        spec["ops"].append(["create_sink", {"index": _new_label(spec, "create_sink"), "junction": c,
+                                            "mdot_kg_per_s": scale * (k + 1)}])
+    return spec
+
+
 def add_oos_supplies(rng, spec):
     """out-of-service pressure supplies next to the in-service ones: a second circulation pump (heat loops) and / or
     an external grid that is switched off, placed before or after the live one in the table"""
@@ -195,6 +215,23 @@ def corpus():
     settings = [[], [["heat_consumer", "in_service", 1, False]], [["heat_consumer", "in_service", 0, False]],
                 [["flow_control", "in_service", 0, False]], [["pipe", "in_service", 1, False]]]
     out.append(("heat_loop", spec, flags, settings))
+    # machines with per-row parameters: several pumps (different std types) / compressors (different ratios), each the
+    # only feeder of its own leaf with its own sink; a switched-off one sits EARLIER in the table than the live ones
+    for fluid, fn, par, vals, scale in (("water", "create_pump", "std_type", ["P3", "P1", "P2"], 0.3),
+                                        ("lgas", "create_compressor", "pressure_ratio", [1.3, 1.05, 1.15], 0.01)):
+        ops = [_j(i) for i in range(8)]
+        ops += [["create_ext_grid", {"index": 0, "junction": 0, "p_bar": 5.0, "t_k": 300.0}], _pipe(0, 0, 1)]
+        for k in range(3):
+            ops.append([fn, {"index": k, "from_junction": 1, "to_junction": 2 + k, par: vals[k], "in_service": k != 0}])
+            ops.append(_pipe(1 + k, 2 + k, 5 + k))
+            ops.append(["create_sink", {"index": k, "junction": 5 + k, "mdot_kg_per_s": scale * (k + 1)}])
+        spec = {"fluid": fluid, "ops": ops}
+        tbl = "pump" if fn == "create_pump" else "compressor"
+        flags = [(tbl, "in_service", 0), (tbl, "in_service", 1), (tbl, "in_service", 2), ("pipe", "in_service", 1),
+                 ("pipe", "in_service", 2), ("pipe", "in_service", 3), ("pipe", "in_service", 0)]
+        settings = [[], [[tbl, "in_service", 0, True], [tbl, "in_service", 1, False]], [["pipe", "in_service", 1, False]],
+                    [[tbl, "in_service", 0, True], ["pipe", "in_service", 1, False], [tbl, "in_service", 2, False]]]
+        out.append(("machines_" + fluid, spec, flags, settings))
     return out
 
 
@@ -681,6 +718,8 @@ def monitors(ctx, widen=False):
             add_sole_link(rng, spec)
         if prof == "heat" or rng.random() < 0.5:
             add_oos_supplies(rng, spec)
+        if prof != "heat" and rng.random() < 0.4:
+            add_machines(rng, spec)
         try:
             one_monitor_case(ctx, rng, spec)
             if i % 4 == 0:
